@@ -1,0 +1,229 @@
+//go:build verif
+// +build verif
+
+// Verification hooks for C19 (build tag "verif"): drive the real assemble /
+// plot / subPlots on a configuration whose collected-data flags are set from
+// a description, and the real mood bookkeeping of the audition.  Only adds
+// exported entry points; nothing of the package is modified.
+
+package cmd
+
+import (
+	"bytes"
+	"context"
+	"fmt"
+	"io/ioutil"
+	"math"
+	"os"
+	"path/filepath"
+	"time"
+
+	"github.com/knz/shakespeare/pkg/crdb/log"
+	"github.com/knz/shakespeare/pkg/crdb/stop"
+)
+
+// VerifMoodPeriod is one entry of auditionResults.moodPeriods.
+type VerifMoodPeriod struct {
+	Start, End float64 // may be +-Inf
+	Mood       string
+}
+
+// VerifActChange is one entry of auditionResults.actChanges.
+type VerifActChange struct {
+	Ts     float64
+	ActNum int
+}
+
+// VerifPlotInput describes what was collected during a (pretended) play.
+type VerifPlotInput struct {
+	CfgText         string
+	ActorHasData    map[string]bool // actor name -> actor.hasData
+	ObserverHasData map[string]bool // member name -> observer.hasData
+	VarHasData      map[string]bool // "member|actor|sig" -> collectedSignal.hasData
+	AuditorHasData  map[string]bool // member name -> auditor.hasData
+	MoodPeriods     []VerifMoodPeriod
+	ActChanges      []VerifActChange
+	MinTime         float64 // app.minTime before assemble (may be +Inf)
+	MaxTime         float64 // app.maxTime before assemble (may be -Inf)
+	NumRepeats      int
+}
+
+// VerifPlotVar is one watched signal/variable of a member, as parsed.
+type VerifPlotVar struct {
+	Actor, Sig string
+	DrawEvents bool
+}
+
+// VerifPlotMember is the plot-relevant part of an audience member, as parsed.
+type VerifPlotMember struct {
+	Name, Ylabel string
+	DisablePlot  bool
+	IsAuditor    bool // expectFsm != nil || len(assignments) > 0
+	ActiveSrc    string
+	ExpectFsm    string // "" = no expects clause
+	ExpectSrc    string
+	Vars         []VerifPlotVar // in obsVarNames order
+}
+
+// VerifPlotOutput is what VerifPlot observed.
+type VerifPlotOutput struct {
+	ParseErr     string
+	Panic        string
+	PlotErr      string
+	Files        map[string]string // plots/<name> -> text
+	MinTime      float64           // Result.MinTime
+	MaxTime      float64           // Result.MaxTime
+	HasRepeat    bool
+	RepeatStart  float64
+	RepeatFirst  int
+	RepeatLast   int
+	RepeatNum    int
+	Actors       []string // cfg.actorNames
+	Members      []VerifPlotMember
+	RepeatActNum int
+	NumActs      int
+	TextW, TextH int
+	TextTerm     string
+}
+
+// VerifPlot parses cfgText, sets the collected-data state from the
+// description, and calls the real assemble and plot (hence subPlots).
+// gnuplot itself is not run (the path is set to a non-existent program; plot
+// only narrates a warning then).
+func VerifPlot(in VerifPlotInput) (out VerifPlotOutput) {
+	defer func() {
+		if r := recover(); r != nil {
+			out.Panic = fmt.Sprintf("%v", r)
+		}
+	}()
+	cfg, err := verifParseString(in.CfgText, nil)
+	if err != nil {
+		out.ParseErr = err.Error()
+		return out
+	}
+	tmp, err := ioutil.TempDir("", "shk-verif-plot")
+	if err != nil {
+		panic(err)
+	}
+	defer os.RemoveAll(tmp)
+	cfg.dataDir = tmp
+	var narration bytes.Buffer
+	cfg.narration = &narration
+	cfg.gnuplotPath = filepath.Join(tmp, "no-such-gnuplot")
+	cfg.avoidTimeProgress = true
+
+	out.Actors = append([]string(nil), cfg.actorNames...)
+	out.RepeatActNum = cfg.repeatActNum
+	out.NumActs = len(cfg.play)
+	out.TextW, out.TextH, out.TextTerm = cfg.textPlotWidth, cfg.textPlotHeight, cfg.textPlotTerm
+	for _, n := range cfg.audienceNames {
+		a := cfg.audience[n]
+		m := VerifPlotMember{
+			Name: a.name, Ylabel: a.observer.ylabel, DisablePlot: a.observer.disablePlot,
+			IsAuditor: a.auditor.expectFsm != nil || len(a.auditor.assignments) > 0,
+			ActiveSrc: a.auditor.activeCond.src, ExpectSrc: a.auditor.expectExpr.src,
+		}
+		if a.auditor.expectFsm != nil {
+			m.ExpectFsm = a.auditor.expectFsm.name
+		}
+		for _, vn := range a.observer.obsVarNames {
+			ov := a.observer.obsVars[vn]
+			m.Vars = append(m.Vars, VerifPlotVar{Actor: vn.actorName, Sig: vn.sigName, DrawEvents: ov.drawEvents})
+			ov.hasData = in.VarHasData[n+"|"+vn.actorName+"|"+vn.sigName]
+		}
+		a.observer.hasData = in.ObserverHasData[n]
+		a.auditor.hasData = in.AuditorHasData[n]
+		out.Members = append(out.Members, m)
+	}
+	for n, a := range cfg.actors {
+		a.hasData = in.ActorHasData[n]
+	}
+
+	ctx := context.Background()
+	ap := newApp(ctx, cfg)
+	defer ap.close()
+	ap.startTime = time.Now()
+	ap.minTime, ap.maxTime = in.MinTime, in.MaxTime
+	for _, p := range in.MoodPeriods {
+		ap.auRes.moodPeriods = append(ap.auRes.moodPeriods, moodPeriod{startTime: p.Start, endTime: p.End, mood: p.Mood})
+	}
+	for _, c := range in.ActChanges {
+		ap.auRes.actChanges = append(ap.auRes.actChanges, &actChange{ts: c.Ts, actNum: c.ActNum})
+	}
+	ap.auRes.numRepeats = in.NumRepeats
+
+	result := ap.assemble(ctx, nil)
+	out.MinTime, out.MaxTime = result.MinTime, result.MaxTime
+	if r := result.Repeat; r != nil {
+		out.HasRepeat = true
+		out.RepeatStart, out.RepeatFirst, out.RepeatLast, out.RepeatNum = r.StartTime, r.FirstRepeatedAct, r.LastRepeatedAct, r.NumRepeats
+	}
+	if err := ap.plot(ctx, result); err != nil {
+		out.PlotErr = err.Error()
+	}
+	out.Files = make(map[string]string)
+	files, _ := ioutil.ReadDir(filepath.Join(tmp, "plots"))
+	for _, f := range files {
+		b, _ := ioutil.ReadFile(filepath.Join(tmp, "plots", f.Name()))
+		out.Files[f.Name()] = string(b)
+	}
+	return out
+}
+
+// VerifMoodEvent is one mood change as the prompter reports it.
+type VerifMoodEvent struct {
+	Ts   float64
+	Mood string
+}
+
+// VerifMoodBook feeds mood changes through the real collectAndAuditMood and
+// closes the play with the real checkFinal at (about) finalTs; returns the
+// recorded auditionResults.moodPeriods.
+func VerifMoodBook(events []VerifMoodEvent, finalTs float64) (periods []VerifMoodPeriod, errText string) {
+	defer func() {
+		if r := recover(); r != nil {
+			errText = fmt.Sprintf("panic: %v", r)
+		}
+	}()
+	ctx := context.Background()
+	stopper := stop.NewStopper()
+	defer stopper.Stop(ctx)
+	cfg := newConfig()
+	rep := &verifReporter{start: time.Now(), min: math.Inf(1), max: math.Inf(-1)}
+	au := &audition{
+		r:       rep,
+		cfg:     cfg,
+		stopper: stopper,
+		logger:  verifC19Logger(ctx),
+		res:     &auditionResults{},
+		st:      makeAuditionState(cfg),
+		collCh:  make(chan collectorEvent, 16),
+	}
+	if err := au.processMoodChange(ctx, true /*atBegin*/, false /*atEnd*/, 0, "clear"); err != nil {
+		return nil, err.Error()
+	}
+	for _, e := range events {
+		if err := au.collectAndAuditMood(ctx, e.Ts, e.Mood); err != nil {
+			return nil, err.Error()
+		}
+	}
+	rep.start = time.Now().Add(-time.Duration(finalTs * float64(time.Second)))
+	if err := au.checkFinal(ctx); err != nil {
+		return nil, err.Error()
+	}
+	for _, p := range au.res.moodPeriods {
+		periods = append(periods, VerifMoodPeriod{Start: p.startTime, End: p.endTime, Mood: p.mood})
+	}
+	return periods, ""
+}
+
+var verifC19Log *log.SecondaryLogger
+
+// one shared secondary logger for the mood-bookkeeping hook (creating one per
+// call costs milliseconds).
+func verifC19Logger(ctx context.Context) *log.SecondaryLogger {
+	if verifC19Log == nil {
+		verifC19Log = log.NewSecondaryLogger(ctx, nil, "audit", true, false)
+	}
+	return verifC19Log
+}
